@@ -46,6 +46,7 @@ type vLogCase struct {
 	readers []*vLiveReader
 	hook    *vHookLogger
 	tag     string // appended to violation signatures (C05: the crash point the log was recovered from)
+	extra   vM     // further fields of the replay record
 }
 
 // vLiveReader is a Reader kept across operations.
@@ -72,6 +73,14 @@ func (c *vLogCase) violation(sig, what string) {
 }
 
 func (c *vLogCase) caseJSON() vM {
+	m := c.caseJSON0()
+	for k, v := range c.extra {
+		m[k] = v
+	}
+	return m
+}
+
+func (c *vLogCase) caseJSON0() vM {
 	return vM{"k": "log", "id": c.id, "profile": c.profile, "maxb": c.opts.MaxSegmentBytes, "cc": c.opts.ConcurrencyControl,
 		"ret_bytes": c.opts.MaxLogBytes, "ret_msgs": c.opts.MaxLogMessages, "ret_age": int64(c.opts.MaxLogAge),
 		"compact": c.opts.Compact, "ops": c.ops}
